@@ -36,7 +36,7 @@ def main():
                       rule='depth programs: resolve_depth / include_depth are unbounded z3 Ints (0..2^64-1) on entry; for every recursion edge (usage->expansion, include->file, '
                            'macro-named include, include inside an expansion) the real MIR and the reference (limit 64, one Include wrapper per include level) must agree for every '
                            'depth value; cycles and 64/65-deep chains are run with concrete start depth 0',
-                      bounds={'tier': args.tier, 'depths': 'symbolic, unbounded', 'chain length in symbolic cases': '<= 3', 'concrete chains': '64 and 65'},
+                      bounds={'tier': args.tier, 'depths': 'symbolic, 0..2^62 (the counters are started at 0 by every public wrapper; values next to usize::MAX are outside the claim)', 'chain length in symbolic cases': '<= 3', 'concrete chains': '64 and 65'},
                       outside=['cycle shapes outside the family (the step obligations cover every recursion edge of preprocess.rs)'],
                       assumptions=ppprop.STD_ASSUMPTIONS, sample_sym='resolve_depth, include_depth (Int), def_A')
 
